@@ -6,9 +6,19 @@
     CRound: the tree is written with the real JSON writer (a configuration), the text read back with
       the real nodeutil.ReadJSON and upserted into a fresh store.  [doc] is the text decoded by
       encoding/json the way the reader does (oracle).  corr: [JsonR.jimport] of the decoded document
-      gives the observed tree; spec: the observed tree is the exported tree. *)
+      gives the observed tree; spec: the observed tree is the exported tree.
+    CSession: ONE real JSONWtr value lives through a history (Out pointed at one of several
+      streams, configuration fields changed, sel.InsertInto/UpsertInto(wtr.Node()), wtr.JSON(sel));
+      the streams accept a limited number of bytes or any number.  corr: Tree/JsonSession.v's
+      [run_session] (writer object with its private bufio.Writer, documents from the writer model
+      JsonW.v) gives the observed results and the observed content of every stream; spec (a law that
+      does not mention the writer object): with [fresh] = what a brand-new JSONWtr wrote for the same
+      selection and configuration, every stream holds the documents of the exports made while it
+      was Out, each once, in order, cut at its capacity; an export failed exactly when its stream
+      did not take all of it; JSON(sel) returned the document. *)
 From Coq Require Import ZArith List Bool Strings.Byte.
-From YV Require Import Base.Verdict Val.Model Tree.Schema Tree.Editor Tree.Export Tree.JStr Tree.JsonSpec Tree.JsonExp Tree.JsonR.
+From YV Require Import Base.Verdict Val.Model Tree.Schema Tree.Editor Tree.Export Tree.JStr Tree.JsonSpec Tree.JsonExp Tree.JsonR
+  Tree.JsonW Tree.JsonSession.
 Import ListNotations.
 Open Scope Z_scope.
 
@@ -19,9 +29,24 @@ Inductive obs :=
 
 Definition row_of (s : snode) : snode := match s with SList _ _ row => row | _ => s end.
 
+(** oracle tables supplied by the harness (as in C15Check.v): decimal text of every binary64 in the
+    data and the defining module of every identity *)
+Definition ftab := list (Z * Z * list byte).
+Definition idtab := list (ident * ident).
+Definition ftab_lookup (t : ftab) (m e : Z) : list byte :=
+  match find (fun r => (fst (fst r) =? m) && (snd (fst r) =? e)) t with Some r => snd r | None => [] end.
+Definition idtab_lookup (t : idtab) (l : ident) : option ident :=
+  match find (fun r => ident_eqb (fst r) l) t with Some r => Some (snd r) | None => None end.
+Definition mk_leaf_start (s : snode) (v : option lval) : start := StLeaf (smeta s) v.
+
 Inductive case :=
 | CExport (s : snode) (data : dnode) (o : obs)
-| CRound (cfg : wcfg) (s : snode) (data : dnode) (doc : rjv) (o : obs).
+| CRound (cfg : wcfg) (s : snode) (data : dnode) (doc : rjv) (o : obs)
+| CSession (ft : ftab) (it : idtab) (starts : list start) (caps : list (option nat)) (cfg0 : wcfg) (out0 : nat)
+    (ops : list sop) (fresh : list (list byte)) (res : list sres) (finals : list (list byte)).
+    (* [caps]: per stream the number of bytes it accepts (None: any); [cfg0]/[out0]: the fields of the
+       writer when it is made; [fresh]: per operation the output of a brand-new writer ([] for
+       assignments); [res]: per operation what the call returned; [finals]: per stream what it received *)
 
 (** some leaf of the exported tree satisfies [p] *)
 Definition any_kid (f : snode -> dnode -> bool) : list snode -> content -> bool :=
@@ -57,6 +82,56 @@ Definition obs_eqb (m : rres (res dnode)) (o : obs) : bool :=
   | _, _ => false
   end.
 
+(** ** sessions of one writer *)
+Definition sres_eqb (a b : sres) : bool :=
+  match a, b with
+  | RSet, RSet => true
+  | RExp x, RExp y => Bool.eqb x y
+  | RJson x s, RJson y t => Bool.eqb x y && bytes_eqb s t
+  | _, _ => false
+  end.
+Fixpoint list_eqb {A} (eqb : A -> A -> bool) (a b : list A) : bool :=
+  match a, b with
+  | [], [] => true
+  | x :: a', y :: b' => eqb x y && list_eqb eqb a' b'
+  | _, _ => false
+  end.
+
+(** the law, from the outputs of brand-new writers: [sent] = bytes offered to each stream so far *)
+Fixpoint bump (k n : nat) (l : list nat) : list nat :=
+  match l, k with
+  | [], _ => []
+  | x :: tl, O => (x + n)%nat :: tl
+  | x :: tl, S k' => x :: bump k' n tl
+  end.
+Definition over (cap : option nat) (total : nat) : bool :=
+  match cap with Some n => Nat.ltb n total | None => false end.
+Fixpoint law_results (caps : list (option nat)) (out : nat) (sent : list nat) (ops : list sop) (fresh : list (list byte))
+  : list sres :=
+  match ops, fresh with
+  | SOut k :: tl, _ :: ftl => RSet :: law_results caps k sent tl ftl
+  | SCfg _ :: tl, _ :: ftl => RSet :: law_results caps out sent tl ftl
+  | SExport _ :: tl, d :: ftl =>
+      let sent' := bump out (length d) sent in
+      RExp (over (nth out caps None) (nth out sent' O)) :: law_results caps out sent' tl ftl
+  | SJSON _ :: tl, d :: ftl => RJson false d :: law_results caps out sent tl ftl
+  | _, _ => []
+  end.
+Fixpoint law_directed (k out : nat) (ops : list sop) (fresh : list (list byte)) : list byte :=
+  match ops, fresh with
+  | SOut k' :: tl, _ :: ftl => law_directed k k' tl ftl
+  | SExport _ :: tl, d :: ftl => (if Nat.eqb out k then d else []) ++ law_directed k out tl ftl
+  | _ :: tl, _ :: ftl => law_directed k out tl ftl
+  | _, _ => []
+  end.
+Definition cut (cap : option nat) (l : list byte) : list byte :=
+  match cap with Some n => firstn n l | None => l end.
+Fixpoint law_finals (caps : list (option nat)) (k out : nat) (ops : list sop) (fresh : list (list byte)) : list (list byte) :=
+  match caps with
+  | [] => []
+  | c :: tl => cut c (law_directed k out ops fresh) :: law_finals tl (S k) out ops fresh
+  end.
+
 Definition classify (c : case) : verdict :=
   match c with
   | CExport s data o =>
@@ -68,4 +143,16 @@ Definition classify (c : case) : verdict :=
       let spec := match o with OTree d => dnode_eqb d exported | _ => false end in
       let known := if any_leaf numeric_union_string s exported then Some 1%nat else None in
       classify_gen (obs_eqb (jimport s doc) o) spec known
+  | CSession ft it starts caps cfg0 out0 ops fresh res finals =>
+      let corr :=
+        match run_session jw_node (ftab_lookup ft) (idtab_lookup it) starts
+                          (map (fun c => mkSink [] c) caps) (mkJW out0 cfg0 None) ops with
+        | Some (ssf, rs) => list_eqb sres_eqb rs res && list_eqb bytes_eqb (map sk_data ssf) finals
+        | None => false
+        end in
+      let spec :=
+        Nat.eqb (length fresh) (length ops) && Nat.ltb out0 (length caps) &&
+        list_eqb sres_eqb (law_results caps out0 (map (fun _ => O) caps) ops fresh) res &&
+        list_eqb bytes_eqb (law_finals caps O out0 ops fresh) finals in
+      classify_gen corr spec None
   end.
